@@ -69,6 +69,10 @@ func classifyMsg(raw json.RawMessage) (answer bool, id string) {
 		if m.ID == nil && m.Method != "" {
 			return false, ""
 		}
+		// a peer's response whose result / error member is of the wrong kind is still taken for a response (and dropped)
+		if usableId(m.ID) && m.Method == "" && m.Params == nil && (m.Result != nil || m.Error != nil) {
+			return false, ""
+		}
 		return true, ""
 	}
 	switch {
@@ -182,7 +186,8 @@ func judgeAnswer(e rpcExpect, resp string) string {
 		if prob != "" {
 			return fmt.Sprintf("answer %d of %d is not a JSON-RPC response object (%s): %.200s", i+1, len(objs), prob, string(o))
 		}
-		if e.ids[i] != "" && id != e.ids[i] {
+		// ids are compared as JSON values (the encoder of the server writes < > & U+2028 U+2029 of a string id as \u escapes)
+		if e.ids[i] != "" && id != e.ids[i] && idToken(json.RawMessage(id), true) != idToken(json.RawMessage(e.ids[i]), true) {
 			return fmt.Sprintf("answer %d of %d carries id %s, the message it answers has id %s", i+1, len(objs), id, e.ids[i])
 		}
 	}
@@ -512,6 +517,13 @@ func (ts *rpcTransports) exchange(t rpcTransport, kind string, body []byte, ctyp
 	os.Stdout.Sync()
 	t0 := time.Now()
 	resp, how := t.send(body, ctype, e)
+	if kind == "structured" && e.valid {
+		// the tie to the Lean dispatch model: the request as JSON tokens, the shape of the answer as read off the reply
+		if toks, ok := jsonTokens(body); ok {
+			fmt.Println("LINE rpc-req " + t.name() + " " + toks + " | " + observedShape(resp, how))
+			c.Hit("rpc-req-line")
+		}
+	}
 	if os.Getenv("ZVH_RPC_TIMING") != "" {
 		c.HitN("time-ms-"+kind+"-"+t.name(), int(time.Since(t0).Milliseconds()))
 	}
@@ -589,11 +601,65 @@ func (ts *rpcTransports) exchange(t rpcTransport, kind string, body []byte, ctyp
 // ---- structured batch hostility -----------------------------------------------------------------------
 
 type batchGen struct {
-	c       *Ctx
-	valid   []string
-	addr    string
-	k       int
-	prelude []string
+	c        *Ctx
+	valid    []string
+	addr     string
+	k        int
+	prelude  []string
+	registry []rpcCallbackFact
+}
+
+// registryCall: a call of a registered method (or of a near miss of its name) with a random number of arguments of
+// random kinds, an id of a random kind — the registry facts of the Lean model are exercised entry by entry
+func (g *batchGen) registryCall() string {
+	c := g.c
+	if len(g.registry) == 0 {
+		return g.call("1")
+	}
+	f := g.registry[c.R.Intn(len(g.registry))]
+	name := f.service + "." + f.name
+	switch c.R.Intn(12) {
+	case 0:
+		name = f.service + "." + strings.ToUpper(f.name[:1]) + f.name[1:] // the Go method name
+	case 1:
+		name = f.service + "." + f.name + "x"
+	case 2:
+		name = f.service + f.name // no separator between service and method
+	case 3:
+		name = f.name
+	case 4:
+		name = f.service + ".." + f.name
+	case 5:
+		name = strings.ToUpper(f.service) + "." + f.name
+	case 6:
+		name = f.service + "." + f.name + "."
+	case 7:
+		name = "." + f.service + "." + f.name
+	}
+	id := []string{`1`, `"a"`, `null`, `0`, `-3`, `2.5`, `1e2`, `true`, `false`, `""`, `"\u0041<>&"`, `"z z|z"`, `12345678901234567890123`}[c.R.Intn(13)]
+	var params string
+	switch c.R.Intn(8) {
+	case 0:
+		params = "" // absent
+	case 1:
+		params = `,"params":null`
+	case 2:
+		params = `,"params":{}`
+	case 3:
+		params = `,"params":"x"`
+	default:
+		k := c.R.Intn(len(f.optional) + 2)
+		el := make([]string, k)
+		for i := range el {
+			el[i] = []string{`0`, `1`, `"x"`, `null`, `"` + g.addr + `"`, `true`, `[]`, `-1`, `4294967296`}[c.R.Intn(9)]
+		}
+		params = `,"params":[` + strings.Join(el, ",") + `]`
+	}
+	idm := `"id":` + id + `,`
+	if c.R.Intn(10) == 0 {
+		idm = "" // a notification
+	}
+	return `{"jsonrpc":"2.0",` + idm + `"method":"` + name + `"` + params + `}`
 }
 
 // elements: every JSON value kind, request-like objects of every class
@@ -617,11 +683,38 @@ func (g *batchGen) element() string {
 		`{"jsonrpc":"2.0","id":9,"method":"ledger.getMomentumsByPage","params":["0","1"]}`, `{"jsonrpc":"2.0","id":9,"method":"ledger.getMomentumsByPage","params":[null,null]}`,
 		`{"jsonrpc":"2.0","id":9,"method":"ledger.getAccountBlocksByPage","params":["z1qqqqqqqqqqqqqqqqqqqqqqqqqqqqqqqqqqqqqq",0,1]}`,
 		`{"jsonrpc":"2.0","id":9,"method":"ledger.getAccountBlocksByPage","params":[null,0,1]}`,
+		// how encoding/json fills the message: member names fold, repeated members overwrite, kinds that do not fit are skipped
+		`{"JSONRPC":"2.0","ID":7,"Method":"ledger.getFrontierMomentum","PARAMS":[]}`, `{"jsonrpc":"2.0","Id":7,"METHOD":"ledger.getFrontierMomentum"}`,
+		`{"id":1,"id":{"a":1},"method":"ledger.getFrontierMomentum"}`, `{"id":{"a":1},"id":2,"method":"ledger.getFrontierMomentum"}`, `{"id":1,"id":null,"method":"ledger.getFrontierMomentum"}`,
+		`{"id":1,"method":"ledger.getFrontierMomentum","method":5}`, `{"id":1,"method":"ledger.getFrontierMomentum","method":null}`, `{"id":1,"method":"nosuch.x","method":"ledger.getFrontierMomentum"}`,
+		`{"id":1,"method":"ledger.getFrontierMomentum","method":""}`, `{"id":1,"method":["ledger.getFrontierMomentum"]}`, `{"id":1,"method":{"a":"b"}}`, `{"id":1,"method":true}`,
+		`{"id":1,"error":5}`, `{"id":1,"error":"x"}`, `{"id":1,"error":[1]}`, `{"id":1,"error":null}`, `{"id":1,"error":{}}`, `{"id":1,"error":{},"error":null}`, `{"id":1,"error":null,"error":true}`,
+		`{"id":1,"error":{"code":"x"}}`, `{"id":1,"result":null}`, `{"id":1,"result":{"a":[1,2]}}`, `{"id":null,"result":1}`, `{"id":true,"result":1}`, `{"id":[1],"result":1}`, `{"result":1}`, `{"error":{"code":1,"message":"x"}}`,
+		`{"id":1,"result":1,"params":null}`, `{"id":1,"result":1,"params":[]}`, `{"id":1,"result":1,"method":""}`, `{"id":1,"result":1,"method":5}`, `{"id":1,"result":1,"method":"ledger.getFrontierMomentum"}`,
+		`{"id":1,"result":1,"error":{"code":1,"message":"x"}}`, `{"Result":1,"ID":"r"}`, "{\"re\u017fult\":1,\"id\":1}", "{\"j\u017fonrpc\":\"2.0\",\"id\":1,\"method\":\"ledger.getFrontierMomentum\",\"param\u017f\":[]}",
+		"{\"id\":1,\"method\":\"ledger.getFrontierMomentum\",\"param\u017f\":{}}", `{"id ":1,"method":"ledger.getFrontierMomentum"}`, `{"":1,"method":"ledger.getFrontierMomentum"}`,
+		`{"jsonrpc":5,"id":1,"method":"ledger.getFrontierMomentum"}`, `{"jsonrpc":null,"id":1,"method":"ledger.getFrontierMomentum"}`, `{"jsonrpc":"3.0","id":1,"method":"ledger.getFrontierMomentum"}`,
+		// ids of every kind
+		`{"id":false,"method":"ledger.getFrontierMomentum"}`, `{"id":1.50e+3,"method":"ledger.getFrontierMomentum"}`, `{"id":-0,"method":"ledger.getFrontierMomentum"}`, `{"id":1e400,"method":"ledger.getFrontierMomentum"}`,
+		`{"id":"\u0041\ud800<>&\u2028","method":"ledger.getFrontierMomentum"}`, `{"id":"a b|c","method":"ledger.getFrontierMomentum"}`, `{"id":{},"method":"ledger.getFrontierMomentum"}`, `{"id":[],"method":"ledger.getFrontierMomentum"}`,
+		`{"id":[],"method":"nosuch.x"}`, `{"id":{"id":1}}`, `{"id":"` + strings.Repeat("i", 3000) + `","method":"ledger.getFrontierMomentum"}`, `{"id":123456789012345678901234567890,"method":"nosuch"}`,
+		// method names
+		`{"id":1,"method":"subscribe","params":["momentums"]}`, `{"id":1,"method":"ledger.subscribe"}`, `{"id":1,"method":"ledger.subscribe","params":null}`, `{"id":1,"method":"ledger.subscribe","params":{}}`,
+		`{"id":1,"method":"ledger.subscribe","params":[null]}`, `{"id":1,"method":"ledger.subscribe","params":[["momentums"]]}`, `{"id":1,"method":"ledger.subscribe","params":["momentums",1,2]}`, `{"method":"ledger.subscribe","params":["momentums"]}`,
+		`{"method":"x.subscribe"}`, `{"id":1,"method":"a.b.c.subscribe","params":["x"]}`, `{"id":1,"method":"unsubscribe","params":["0x1"]}`, `{"id":1,"method":".unsubscribe"}`, `{"id":1,"method":"x.unsubscribe","params":null}`,
+		`{"id":1,"method":"x.unsubscribe","params":["a","b"]}`, `{"id":1,"method":"x.unsubscribe","params":{}}`, `{"method":"x.unsubscribe","params":["0x1"]}`, `{"id":1,"method":"x.subscription"}`, `{"method":".subscription"}`,
+		`{"method":"subscription"}`, `{"id":1,"method":"ledger.string"}`, `{"id":1,"method":"ledger.String"}`, `{"id":1,"method":"rpc.modules"}`, `{"id":1,"method":"rpc.modules","params":[1]}`, `{"id":1,"method":"rpc.Modules"}`,
+		`{"id":1,"method":"ledger"}`, `{"id":1,"method":"ledger.getFrontierMomentum "}`, `{"id":1,"method":" ledger.getFrontierMomentum"}`, `{"id":1,"method":"ledger.getFrontierMomentum.subscribe"}`,
+		`{"id":1,"method":"embedded.token.getAll","params":[0,1]}`, `{"id":1,"method":"embedded.token.getAll","params":[0]}`, `{"id":1,"method":"embedded.token.getAll","params":[0,1,2]}`, `{"id":1,"method":"embedded.token.getAll"}`,
+		`{"id":1,"method":"embedded.getAll","params":[0,1]}`, `{"id":1,"method":"token.getAll","params":[0,1]}`, `{"id":1,"method":"embedded.token..getAll","params":[0,1]}`, `{"id":1,"method":"ledger.publishRawTransaction"}`,
+		`{"id":1,"method":"ledger.publishRawTransaction","params":[null]}`, `{"id":1,"method":"ledger.publishRawTransaction","params":[1]}`, `{"id":1,"method":"ledger.publishRawTransaction","params":[{},{}]}`,
 		"{\"jsonrpc\":\"2.0\",\"id\":9,\"method\":\"ledger.getFrontier\xffMomentum\",\"params\":[]}", "\"\xff\xfe\"", "{\"jsonrpc\":\"2.0\",\"id\":\"\xc3\x28\",\"method\":\"ledger.getFrontierMomentum\",\"params\":[]}",
 	}
-	switch c.R.Intn(12) {
+	switch c.R.Intn(14) {
 	case 0, 1, 2:
 		return g.valid[c.R.Intn(len(g.valid))]
+	case 12, 13:
+		return g.registryCall()
 	case 3:
 		return `{"jsonrpc":"2.0","method":"ledger.getFrontierMomentum","params":[]}` // notification
 	case 4:
